@@ -11,7 +11,7 @@ from ..core import AnalysisError, Ctx, fold, norm
 from ..grammar import Star, seq_str
 
 META = {
-    "explanation": "Exhaustive agreement of the four vocabulary tables, decided from source text: block types of the compiled grammar vs schema files vs tokens.py tables (V1,V9), singleton/plural storage of every parent->child schema edge vs SINGLETON_COMPOSITE_NAMES / OBJECT_LIST_KEYS / the evaluated plural() (V3), REPEATED_KEYS vs repeated array-of-string keywords (V4), SYMBOL_ATTRIBUTES vs symbol.json (V5), every (type, keyword, value alternative, position first/middle/last) fed as terminal names to the LALR table with the contextual lexer's word classification and the PAI-evaluated interactive retagging of Parser.parse (V6), no block-level LALR conflict (G1), every schema default valid for its own node (V7), the printer writes every keyword-introduced block in its rule's shape (evaluated), COMPLEX_TYPES vs grammar block rules (V8), every listed alternative validates for its keyword (V9).",
+    "explanation": "Exhaustive agreement of the four vocabulary tables, decided from source text: block types of the compiled grammar vs schema files vs tokens.py tables (V1,V9), singleton/plural storage of every parent->child schema edge vs SINGLETON_COMPOSITE_NAMES / OBJECT_LIST_KEYS / the evaluated plural() (V3), REPEATED_KEYS vs repeated array-of-string keywords (V4), SYMBOL_ATTRIBUTES vs symbol.json (V5), every (type, keyword, value alternative, position first/middle/last) fed as terminal names to the LALR table with the contextual lexer's word classification and the PAI-evaluated interactive retagging of Parser.parse (V6), no block-level LALR conflict (G1), every schema default valid for its own node (V7), the printer writes every keyword-introduced block in its rule's shape (evaluated), COMPLEX_TYPES vs grammar block rules (V8), every listed alternative validates for its keyword (V9). (V10) Validator.validate, evaluated with recording stand-ins for the jsonschema validator classes and validator_for, builds a Draft4Validator for every root type with and without a version - the schema files are read by one draft everywhere.",
     "level_text": "Exhaustive enumeration of a finite product (20 types x 326 keyword slots x value alternatives x 3 positions; all LALR conflicts; all defaults): each obligation is decided on the compiled grammar / schema data / constant-folded tables of the current tree. This is the right level because C19 quantifies over a finite vocabulary - enumeration is a complete decision, not a sample.",
     "level_note": "Trusted: lark 1.3.1 LALR construction and contextual-lexer rules as re-implemented for whole words (terminal order, 'unless' re-typing), Draft-4 semantics of jsonschema for V7. Values are represented by terminal kinds, one canonical representative per schema alternative; lexer-level behaviour inside a value token is not examined.",
     "technique": "static table agreement: compiled-grammar LALR queries on terminal-name sequences + JSON-schema slot enumeration + AST constant folding + abstract interpretation of plural()/retagging",
